@@ -49,5 +49,7 @@ SEEDED = [
     ("C01-9", "C01-BORROW"),
     ("C01-10", "C01-LOOP"),
     ("C01-11", "C01-WRAP"),
+    ("C01-12", "C01-CLI"),
+    ("C01-13", "C01-REGEX"),
 ]
 MUTANTS = list(MUTANTS) + [_P("seed-" + sid, _os.path.join(_SEEDS, sid, "patch.diff"), rule) for sid, rule in SEEDED if _os.path.exists(_os.path.join(_SEEDS, sid, "patch.diff"))]
